@@ -174,9 +174,12 @@ def _run_reference_implementation(
         output_feed = dict(zip(session.output_names, session.run(None, input_feed)))
     except Exception as e:
         # Give up on value propagation if an implementation is missing.
+        # (formatted lazily, by the logging machinery: an exception whose ``__str__`` fails must not escape from here)
         logging.debug(
-            f"Value propagation in {model} on the ONNX reference implementation failed with - "
-            f"{type(e).__name__}: {e}"
+            "Value propagation in %s on the ONNX reference implementation failed with - %s: %s",
+            model,
+            type(e).__name__,
+            e,
         )
         return {}
     return output_feed
@@ -196,8 +199,10 @@ def _run_onnxruntime(
         output_feed = dict(zip(output_names, session.run(None, input_feed)))
     except Exception as e:
         logging.debug(
-            f"Value propagation in {model} on the onnxruntime failed with - "
-            f"{type(e).__name__}: {e}"
+            "Value propagation in %s on the onnxruntime failed with - %s: %s",
+            model,
+            type(e).__name__,
+            e,
         )
         return {}
     return output_feed
